@@ -41,6 +41,7 @@ def spec():
         "/profile": op("getProfile", {"200": js(ref("Profile")), "204": {"description": "nothing stored"}}),
         "/mitems": op("getMaybeItems", {"200": js(ref("MaybeItems"))}),
         "/color": op("getColor", {"200": js(ref("Color"))}),
+        "/tone": op("getTone", {"200": js({"allOf": [ref("Color")], "nullable": True})}),
         "/colors": op("getColors", {"200": js(ref("Colors"))}),
         "/colorsinline": op("getColorsInline", {"200": js({"type": "array", "items": ref("Color")})}),
         "/stamp": op("getStamp", {"200": js(ref("Stamp"))}),
